@@ -171,7 +171,8 @@ func (r *Router) match(method, path string) (rt *Route, ps Params) {
 	if r.enableCaching && r.cachedRoutes != nil {
 		route, ok := r.cachedRoutes.Get(method + path)
 		if ok {
-			return route, route.params
+			// Notice: hand out a copy, the handlers may change the map they get.
+			return route, route.params.clone()
 		}
 	}
 
